@@ -33,7 +33,7 @@ func VerifHarness_C06() {
 		o.MaxNodeAge = "1h"
 	}
 	g := w.addGroup(o, 0, maxEff, 0)
-	classes := [][]int{{tcNone}, {tcNone, tcEsc}}[menu]
+	classes := [][]int{{tcNone}, {tcNone, tcEsc}, {tcNone, tcEscGarbage, tcEscEmpty, tcForce}}[menu]
 	w.symNodes("", g, N, classes, cord == 1, []int{0}, trig == 2)
 	if verifShape(5) == 1 {
 		// memory-bound: cpu fixed and small, memory symbolic
